@@ -54,6 +54,14 @@ def mutants(data, rng, n, others=()):
             b[i] = 0
             add(b)
             add(bytes(b[:i + 1]) + b'\x00' * 4)
+    # octets that are 0 or 1 are often booleans (RFC 4251: every non-zero value is TRUE) or two-valued codes: other
+    # "true" values near the end of the message (flags and reserved words sit there) and at the sampled spots
+    for i in sorted(set(range(max(0, L - 24), L)) | set(spots)):
+        if data[i] in (0, 1):
+            for v in (2, 0x80):
+                b = bytearray(data)
+                b[i] = v
+                add(b)
     # whole fields set to zero (identifiers, cookies, session ids, timestamps: a zero value is a value, not an absence)
     for w in (8, 4):
         for i in range(0, min(L - w + 1, 48)):
